@@ -88,6 +88,11 @@ def jobs(tier):
             for sc in ([h, []], [[], h]):
                 out.append({"prop": PROP, "cfg": cfg, "order": "asc", "base": "B4", "scripts": A.stamp(sc),
                             "opts": {"users_first": True}})
+    for cfg in (["oo", "po", "op"] if tier == "quick" else ["oo", "po", "op", "pp", "ci", "pci"]):
+        for ph in REPLAY_HISTS:
+            for side in (0, 1):
+                out.append({"prop": PROP, "cfg": cfg, "order": "asc", "base": "B1", "scripts": [[], []], "phases": [ph[0], ph[1]],
+                            "side": side, "opts": {}})
     return out
 
 
@@ -150,7 +155,103 @@ def run_variant(job, side, plan, walk=None, per_event=False):
         w.close()
 
 
+# ---- stale replays: events of an EARLIER, fully processed phase are delivered again together with the next batch
+REPLAY_HISTS = [
+    # (phase 1 ops, phase 2 ops) on one side; "1"/"2" are the base contents of a and d/b (same bytes => same hash)
+    ([["create", "t", "1"], ["delete", "t"]], [["delete", "a"]]),
+    ([["create", "t", "T1"], ["delete", "t"]], [["create", "t", "T2"]]),
+    ([["delete", "d/b"]], [["create", "d/b", "N1"]]),
+    ([["write", "a", "W1"]], [["delete", "a"]]),
+    ([["rename", "a", "c"]], [["write", "c", "W2"]]),
+    ([["rename", "a", "c"]], [["rename", "c", "a"]]),
+    ([["mkdir", "m"], ["delete", "m"]], [["create", "m", "F1"]]),
+    ([["create", "t", "2"]], [["delete", "t"], ["delete", "d/b"]]),
+]
+
+
+def run_replay_variant(job, plan):
+    """plan = None (no replay) | (with_hash, placement, subset) ; returns judge dict"""
+    side = job["side"]
+    w = DRIVER.make_world(dict(job, scripts=[[], []]))
+    try:
+        p = w.provs[side]
+        inner = p.events
+        old = []
+        st = {"phase": 1, "done": False}
+
+        def events():
+            new = list(inner())
+            if st["phase"] == 1:
+                for e in new:
+                    h = None
+                    o = p._mock_fs.get(e.oid)
+                    if o is not None and o.contents is not None and e.exists and o.type == o.FILE:
+                        h = o.hash()        # (the object may be gone again by now: the event described it while it lived)
+                    old.append((e, h))
+                return iter(new)
+            if plan and new and not st["done"]:
+                st["done"] = True
+                with_hash, placement, subset = plan
+                rep = [replace(e, hash=(h if with_hash else e.hash)) for i, (e, h) in enumerate(old) if i in subset]
+                new = rep + new if placement == "before" else new + rep
+            return iter(new)
+        p.events = events
+        ph1, ph2 = job["phases"]
+        w.scripts = [[], []]
+        w.scripts[side] = [list(op) for op in ph1] + [list(op) for op in ph2]
+        w.pos = [0, 0]
+        for _ in ph1:
+            w.user(side)
+        try:
+            w.settle(limit=150)
+            st["phase"] = 2
+            for _ in ph2:
+                w.user(side)
+            w.settle(limit=150)
+        except NoQuiescence:
+            return {"noquiesce": True}, len(old)
+        jd = P.judge(w)
+        jd["spurious"] = [list(map(str, x)) for x in w.spurious]
+        return jd, len(old)
+    finally:
+        w.close()
+
+
+def run_replay_job(job):
+    vs = {}
+    base, n_old = run_replay_variant(job, None)
+    if base.get("noquiesce") or not base["converged"] or base["lost"]:
+        return _result(job, 1, 1, {}, "base-fails (see C01/C02)")
+    n_eval = 0
+    idx = list(range(min(n_old, 5)))
+    subsets = [list(c) for r in range(1, len(idx) + 1) for c in itertools.combinations(idx, r)]
+    for with_hash in (False, True):
+        for placement in ("before", "after"):
+            for sub in subsets:
+                res, _ = run_replay_variant(job, (with_hash, placement, sub))
+                n_eval += 1
+                bad = None
+                if res.get("noquiesce"):
+                    bad = ("noquiesce", {})
+                elif res["trees"] != base["trees"]:
+                    bad = ("differs-from-prompt", res["trees"])
+                elif [a for a in res["artefacts"] if a not in base["artefacts"]]:
+                    bad = ("artefact", res["trees"])
+                elif not base["spurious"] and res["spurious"]:
+                    bad = ("spurious-transfer", {"calls": res["spurious"][:3]})
+                if bad is not None:
+                    tag = "replay%s-%s" % ("+hash" if with_hash else "", placement)
+                    sig = "%s:%s:%s:%s" % ("LR"[job["side"]], tag, bad[0], digest(json.dumps(bad[1], sort_keys=True, default=repr)))
+                    if sig not in vs:
+                        vs[sig] = viol("mangle-" + bad[0], sig, {"side": job["side"], "with_hash": with_hash, "placement": placement,
+                                                              "replayed": sub, "observed": bad[1], "prompt": base["trees"]})
+                        vs[sig]["hist"] = ["PHASE1", "SETTLE", "PHASE2", "REPLAY(%s)" % json.dumps([with_hash, placement, sub]), "SETTLE"]
+    return _result(job, n_eval, 0, vs, None)
+
+
 def run_job(job):
+    if job.get("phases"):
+        return run_replay_job(job)
     vs = {}
     n_eval = 0
     base, _ = run_variant(job, 0, None)
